@@ -102,6 +102,12 @@ _BUILTIN_ROOTS = {'self', 'np', 'numpy', 'pd', 'pandas', 'sp', 'scipy', 'stats',
                   'utils', 'semantics', 'common_classes', 'heapdict', 'geoeligibility', 'functools', 'collections', 'heapq', 'dataclasses'}
 
 
+import builtins as _builtins
+_REPO_MODULES = {'tbrmmscore', 'tbrmmdiagnostics', 'tbrmmdesign', 'tbrmmdata', 'tbrmmdesignparameters', 'tbrmatchedmarkets', 'tbr', 'tbr_iroas', 'tbrdiagnostics',
+                 'geoeligibility', 'heapdict', 'utils', 'semantics', 'common_classes'}
+_BUILTIN_ROOTS |= {n_ for n_ in dir(_builtins) if not n_.startswith('_')}
+
+
 def aliens(expr, vocabulary=(), fields=None):
   """Root names read by `expr` that are neither in `vocabulary` nor well-known module/builtin roots, and are not bound
   inside the expression (comprehension variables, lambda parameters).  An expression without aliens is a *closed term*
@@ -117,7 +123,8 @@ def aliens(expr, vocabulary=(), fields=None):
       bound |= {a.arg for a in sub.args.args}
   out = []
   for sub in ast.walk(expr):
-    if isinstance(sub, ast.Name) and isinstance(sub.ctx, ast.Load) and sub.id not in allowed and sub.id not in bound and sub.id not in out:
+    if isinstance(sub, ast.Name) and isinstance(sub.ctx, ast.Load) and sub.id not in allowed and sub.id not in bound and sub.id not in out \
+        and not sub.id[:1].isupper() and sub.id not in _REPO_MODULES:       # class names / constants / modules of the package are known things
       out.append(sub.id)
     # with `fields` given, only those attributes of self are known quantities; any other field is an unresolved one
     if fields is not None and isinstance(sub, ast.Attribute) and isinstance(sub.value, ast.Name) and sub.value.id == 'self' and sub.attr not in fields \
